@@ -190,6 +190,9 @@ func progressGoal(s *simState, probe *int) (bool, string) {
 
 func init() {
 	finalCheck = func(sc *simScenario, hist []simEvent) []simViolation {
+		if sc.Final == "adversary" {
+			return runAdversary(sc, hist)
+		}
 		if sc.Final != "progress" {
 			return finalShutdown(sc, hist)
 		}
